@@ -26,6 +26,18 @@ func (c *Ctx) codecShapeOf(tk *TreeKind) codecShape {
 	nret := 0
 	ast.Inspect(tu.Body, func(n ast.Node) bool {
 		r, ok := n.(*ast.ReturnStmt)
+		if ok && len(r.Results) == 1 {
+			// return OtherCodec{}.Transform(x): the two results are what that codec returns
+			if call, isCall := ast.Unparen(r.Results[0]).(*ast.CallExpr); isCall {
+				if cu := c.m.calleeUnit(call); cu != nil && cu != tu && cu.Body != nil && cu.Decl != nil && cu.Decl.Name.Name == tu.Decl.Name.Name {
+					nret++
+					if !c.returnsSamePair(cu, 0) {
+						cs.sameResults = false
+					}
+					return true
+				}
+			}
+		}
 		if !ok || len(r.Results) != 2 {
 			return true
 		}
@@ -114,7 +126,7 @@ func (c *Ctx) keySignature2(u *FuncUnit, v *types.Var, cs codecShape, depth int)
 				default:
 					// a helper of the library that prepares the key (t.searchKey(key)): the
 					// derivation is that of the variable it returns
-					if cu := c.m.calleeUnit(call); cu != nil && cu.Lit == nil && cu.Body != nil && c.sigDepth < 3 {
+					if cu := c.m.calleeUnit(call); cu != nil && cu != u && cu.Body != nil && c.sigDepth < 3 {
 						if rets, all := returnExprs(cu); all && len(rets) == 1 {
 							if rv := identVar(info, rets[0]); rv != nil {
 								c.sigDepth++
@@ -292,15 +304,19 @@ func ruleR08(c *Ctx) {
 					if !ok || found {
 						return !found
 					}
-					if m.calleeName(call) == "rangeScan" && len(call.Args) >= 5 {
-						sig := func(i int) string {
-							if v := identVar(info, call.Args[i]); v != nil {
+					if m.calleeName(call) == "rangeScan" && len(call.Args) >= 2 {
+						sr := c.scanRoles()
+						sig := func(p boundPath, ok bool) string {
+							if !ok {
+								return "?"
+							}
+							if v := identVar(info, c.boundArgAt(u, call, p)); v != nil {
 								return c.keySignature(u, v, cs)
 							}
 							return "?"
 						}
-						roleA["Range.lower"], roleA["Range.upper"] = sig(1), sig(2)
-						roleB["Range.lower"], roleB["Range.upper"] = sig(3), sig(4)
+						roleA["Range.lower"], roleA["Range.upper"] = sig(sr.lowA, sr.okA), sig(sr.upA, sr.okA)
+						roleB["Range.lower"], roleB["Range.upper"] = sig(sr.lowB, sr.okB), sig(sr.upB, sr.okB)
 						found = true
 						return false
 					}
@@ -546,16 +562,27 @@ func ruleR08(c *Ctx) {
 	if wu := m.ByName["WithCollator"]; wu != nil {
 		field := ""
 		if tu := m.ByName["CollationOrderKey.Transform"]; tu != nil {
-			ast.Inspect(tu.Body, func(n ast.Node) bool {
-				if call, ok := n.(*ast.CallExpr); ok && strings.Contains(m.calleeName(call), "collate.Collator.Key") {
-					if sel, ok := call.Fun.(*ast.SelectorExpr); ok {
-						if s2, ok := ast.Unparen(sel.X).(*ast.SelectorExpr); ok {
-							field = s2.Sel.Name
+			// the call of the collator may sit in a helper of Transform (cok.sortKey(b))
+			var units []*FuncUnit
+			for u := range c.reachableFrom([]*FuncUnit{tu}) {
+				units = append(units, u)
+			}
+			sort.Slice(units, func(i, j int) bool { return units[i].Name < units[j].Name })
+			for _, u := range units {
+				if u.Body == nil {
+					continue
+				}
+				ast.Inspect(u.Body, func(n ast.Node) bool {
+					if call, ok := n.(*ast.CallExpr); ok && strings.Contains(m.calleeName(call), "collate.Collator.Key") {
+						if sel, ok := call.Fun.(*ast.SelectorExpr); ok {
+							if s2, ok := ast.Unparen(sel.X).(*ast.SelectorExpr); ok {
+								field = s2.Sel.Name
+							}
 						}
 					}
-				}
-				return true
-			})
+					return true
+				})
+			}
 		}
 		stored := false
 		ast.Inspect(wu.Body, func(n ast.Node) bool {
@@ -586,4 +613,41 @@ func simpleReturnExpr(u *FuncUnit) ast.Expr {
 		return e
 	}
 	return &ast.BadExpr{}
+}
+
+// returnsSamePair: every return of the two-result function u hands out one variable twice
+// (return b, b), directly or through a like-named method it delegates to.
+func (c *Ctx) returnsSamePair(u *FuncUnit, depth int) bool {
+	info := c.m.Info
+	same, n := true, 0
+	ast.Inspect(u.Body, func(nd ast.Node) bool {
+		if _, isLit := nd.(*ast.FuncLit); isLit {
+			return false
+		}
+		r, ok := nd.(*ast.ReturnStmt)
+		if !ok {
+			return true
+		}
+		n++
+		switch len(r.Results) {
+		case 2:
+			a, b := identVar(info, r.Results[0]), identVar(info, r.Results[1])
+			if a == nil || a != b {
+				same = false
+			}
+		case 1:
+			call, isCall := ast.Unparen(r.Results[0]).(*ast.CallExpr)
+			cu := (*FuncUnit)(nil)
+			if isCall {
+				cu = c.m.calleeUnit(call)
+			}
+			if cu == nil || cu == u || cu.Body == nil || depth >= 2 || !c.returnsSamePair(cu, depth+1) {
+				same = false
+			}
+		default:
+			same = false
+		}
+		return true
+	})
+	return same && n > 0
 }
